@@ -284,9 +284,9 @@ def extra_obligations(world, tier, seed):
     scope = "every Unicode scalar value" if tier == "thorough" else \
         "U+0000..U+2FFF, every 97th code point above, and the boundary code points (quick tier)"
     out.append({"func": "graphql.language.print_string.print_string", "kind": "FINITE",
-                "text": f"lex(print_string(c)) == c alone and between letters, for {scope}",
+                "text": "lex(print_string(c)) == c alone and between letters, for every code point in the scope of the tier",
                 "status": "discharged" if ok else "refuted", "backend": "finite",
-                "detail": (p.stdout + p.stderr)[-300:], "time_s": round(time.time() - t0, 2),
+                "detail": f"scope: {scope}; " + (p.stdout + p.stderr)[-300:], "time_s": round(time.time() - t0, 2),
                 "model": None if ok else {"output": (p.stdout + p.stderr)[-500:]}})
     return out
 
